@@ -5,6 +5,7 @@ CONSTANTS
   DEV_AccountPriceNext = FALSE
   DEV_StatusWrittenBack = FALSE
   DEV_BookSharedWithData = FALSE
+  DEV_HourRounded = FALSE
   NBars = 6
   Syms = 3
   Factors = {1, 5}
